@@ -124,3 +124,24 @@ Qed.
 
 Lemma to_bytes4_eq x : py_to_bytes_le x 4 = to_bytes4 x.
 Proof. reflexivity. Qed.
+
+(* ---------- decoders of a CompactSize: case analysis on the first byte ----------
+   After the first byte is fixed (below 253, or one of 253 / 254 / 255) everything but the tail is closed, so the
+   two sides are normalised by computation; the form of the source (if-chain, table of sizes, shift) is irrelevant. *)
+Ltac decode_norm :=
+  unfold py_lshift, py_rshift, py_floordiv, py_mod, py_from_bytes_le, py_from_bytes_be, be_val, py_unpack_le, unpack_le,
+         pairZ, option_map, of_option;
+  cbv beta iota zeta; eval_closed;
+  rewrite ?py_slice_tail' by lia; eval_closed;
+  rewrite ?rev_involutive; cbn [fst snd]; eval_closed.
+Ltac decode_first_byte b Hb :=
+  let H := fresh "H" in
+  destruct (Z_lt_le_dec b 253) as [H|H];
+  [ decode_norm; split_ifs; try reflexivity; try lia
+  | let H3 := fresh "H3" in
+    assert (H3 : b = 253 \/ b = 254 \/ b = 255) by lia;
+    destruct H3 as [H3|[H3|H3]]; subst b; decode_norm;
+    repeat match goal with
+           | |- context [if ?c then _ else _] =>
+               lazymatch type of c with bool => idtac end; destruct c; cbv beta iota zeta
+           end; reflexivity ].
